@@ -8,12 +8,12 @@ package main
 //   gsv list                                     list functions under contract
 
 import (
-	"regexp"
 	"encoding/json"
 	"flag"
 	"fmt"
 	"os"
 	"path/filepath"
+	"regexp"
 	"sort"
 	"strconv"
 	"strings"
@@ -599,10 +599,26 @@ func cmdCheck(eng *Engine, o options, start time.Time) int {
 				engineErr = true
 			case ob.Result.Verdict == "sat":
 				rep.Verdict = "refuted"
-				report(ob, "refuted "+ob.Result.Solver+" returned a model")
+				reason := "refuted " + ob.Result.Solver + " returned a model"
+				if ok, attempted, txt := tryReplay(eng, o, c, ob, replayDir); attempted {
+					ob.ReplayNote = txt
+					if ok {
+						reason = "confirmed-by-replay the model's inputs falsify the clause on the real code"
+						rep.Verdict = "refuted-and-replayed"
+					}
+				}
+				report(ob, reason)
 			default:
 				rep.Verdict = "undischarged:" + ob.Result.Verdict
-				report(ob, "undischarged all solvers: "+ob.Result.Verdict)
+				reason := "undischarged all solvers: " + ob.Result.Verdict
+				if ok, attempted, txt := tryReplay(eng, o, c, ob, replayDir); attempted {
+					ob.ReplayNote = txt
+					if ok {
+						reason = "confirmed-by-replay a candidate input falsifies the clause on the real code"
+						rep.Verdict = "undischarged-and-replayed"
+					}
+				}
+				report(ob, reason)
 			}
 			reports = append(reports, rep)
 		}
@@ -659,18 +675,18 @@ func cmdCheck(eng *Engine, o options, start time.Time) int {
 		"wall_s":      time.Since(start).Seconds(),
 		"violations":  violations,
 		"coverage": map[string]any{
-			"obligations":           total - known,
-			"discharged":            discharged,
-			"known_finding_failing": known,
-			"checker_cmd":           fmt.Sprintf("./check %s %s", o.prop, o.tier),
-			"trusted_base":          tb,
+			"obligations":              total - known,
+			"discharged":               discharged,
+			"known_finding_failing":    known,
+			"checker_cmd":              fmt.Sprintf("./check %s %s", o.prop, o.tier),
+			"trusted_base":             tb,
 			"functions_under_contract": fnReps,
-			"obligation_results":    reports,
-			"solver_time_s":         solverTime,
-			"discharged_by_solver":  solverCount,
-			"samples":               samples,
-			"timeout_s":             o.timeout,
-			"integer_semantics":     "mathematical integers with exact two's-complement wrap-around per Go type",
+			"obligation_results":       reports,
+			"solver_time_s":            solverTime,
+			"discharged_by_solver":     solverCount,
+			"samples":                  samples,
+			"timeout_s":                o.timeout,
+			"integer_semantics":        "mathematical integers with exact two's-complement wrap-around per Go type",
 		},
 		"assumptions": assumptionsFor(o.prop, ctxs, tb),
 	}
@@ -726,6 +742,9 @@ func writeReplay(eng *Engine, o options, dir string, ob *Obligation, reason stri
 			os.WriteFile(qp, data, 0o644)
 			sb.WriteString("smt_query: " + qp + "\n")
 		}
+	}
+	if ob.ReplayNote != "" {
+		sb.WriteString(ob.ReplayNote)
 	}
 	for _, a := range ob.All {
 		sb.WriteString(fmt.Sprintf("--- solver %s: %s (%.2fs)\n", a.Solver, a.Verdict, a.Time))
